@@ -442,7 +442,7 @@ pub fn run(ctx: &Ctx, replay: Option<&serde_json::Value>) {
     ctx.set_rule("(a) items (fact, rule, check, policy) derived from the grammar: every term type, nested collections, every operator and method, closures, explicit Parens exactly where the grammar needs them, scopes with both key algorithms, strings over all of Unicode biased to quote / backslash / newline / Datalog fragments; Display -> FromStr must give the same AST; (b) strict And/Or (on the wire, not in the grammar); (c) blocks: token -> print_block_source -> BlockBuilder::code, authorizers: dump_code -> AuthorizerBuilder::code; non-trivial = a string with quote, backslash or newline, or an expression of >=5 ops, or a scope, or a nested term; distinct = hash(item)");
     ctx.run_list("legacy", &[0u8], |_, r| test_legacy_ops(ctx, r));
     let cfg = text_cfg();
-    let items = ctx.tier.pick(40_000, 5_000_000);
+    let items = ctx.tier.pick(400_000, 5_000_000);
     ctx.run_prop(
         "items",
         items,
@@ -452,7 +452,7 @@ pub fn run(ctx: &Ctx, replay: Option<&serde_json::Value>) {
         },
         |c, r| test_item(ctx, c, r),
     );
-    let blocks = ctx.tier.pick(4000, 400_000);
+    let blocks = ctx.tier.pick(40_000, 400_000);
     let bcfg = GenCfg {
         max_facts: 3,
         max_rules: 2,
